@@ -234,11 +234,18 @@ fn main() {
         let v = run_child(&rf["case"]["cfg"]);
         loomh::replay_exit(&v, rf["signature"].as_str().unwrap_or(""));
     }
+    // --prop C02: the fault half alone, reported under C02 ("an I/O error reported by the operating
+    // system is surfaced to the caller rather than acknowledged as success")
+    let c02 = args.get("prop") == Some("C02");
+    let mut cfgs = configs(args.tier_thorough());
+    if c02 {
+        cfgs.retain(|c| c["fail_sync_at"].as_u64().unwrap_or(0) > 0);
+    }
     let mut rep = run_parent(
-        "loom_log",
-        "C12",
-        "c12",
-        configs(args.tier_thorough()),
+        if c02 { "loom_log-C02" } else { "loom_log" },
+        if c02 { "C02" } else { "C12" },
+        if c02 { "c02" } else { "c12" },
+        cfgs,
         &args,
         "loom DPOR over every interleaving of 2-3 threads x 1-2 appends through the real ConcurrentLogBuilder<File> (2 or 4 wait-list slots), with write and fdatasync interposed to observe file size and durable prefix; plus the same with the first or second fdatasync failing; one evaluation = one complete execution; distinct = (file order, per-call results, number of fdatasyncs)",
     );
